@@ -63,6 +63,9 @@ func ruleQRByteMode(c *Ctx) {
 	addByte := c.P.Func("utils.(*BitList).AddByte")
 	var sites []DeepSite
 	for _, s := range c.P.deepCallsTo(fn, addByte) {
+		if c.P.FuncName(s.Fn) == "qr.addPaddingAndTerminator" {
+			continue // the pad codewords are Q9's subject
+		}
 		// (pad bytes are constants; the content bytes are element reads)
 		switch x := s.Ins.(*ssa.Call).Common().Args[1].(type) {
 		case *ssa.UnOp, *ssa.Index, *ssa.Lookup, *ssa.Extract:
